@@ -307,4 +307,53 @@ theorem redirect_verdict_ok (port hdr target uri : Bytes) (hu : requestURI targe
       simp only [h1, Bool.false_eq_true, if_false, sameURI_ok target uri hstar hu, Bool.not_true]
   · simp [hsc]
 
+theorem digits_ascii (p : Bytes) (h : p.all isDigit = true) : ∀ c ∈ p, c < 0x80 := by
+  intro c hc
+  rw [List.all_eq_true] at h
+  have := h c hc
+  unfold isDigit at this
+  simp only [Bool.and_eq_true, decide_eq_true_eq] at this
+  exact Nat.lt_of_le_of_lt (UInt8.le_iff_toNat_le.mp this.2) (by decide)
+
+/-- the probe of stream c15.sites reads back exactly the port the handler captured -/
+theorem probe_roundtrip (rp : Bytes) (hd : rp.all isDigit = true) :
+    probeTarget (redirLocation rp probeHost probeURI) = some rp := by
+  have hsplit : splitHostPort probeHost = none := by decide
+  have hpre : (hasPrefix probeHost b!"[" && hasSuffix probeHost b!"]") = false := by decide
+  have h58 : hasByte probeHost 58 = false := by decide
+  unfold redirLocation redirHostPort
+  simp only [hsplit, hpre, Bool.false_eq_true, if_false, h58]
+  by_cases he : rp.isEmpty = true
+  · have : rp = [] := by simpa using he
+    subst this
+    decide
+  · have hne : rp ≠ [] := by simpa using he
+    simp only [he, Bool.not_false, if_true]
+    rw [joinHostPort_eq]
+    simp only [h58, Bool.false_eq_true, if_false]
+    have hasc : hexEscapeNonASCII (b!"https://" ++ (probeHost ++ b!":" ++ rp) ++ probeURI) = b!"https://probe.test" ++ (58 :: rp ++ probeURI) := by
+      rw [hexEsc_ascii]
+      · simp [probeHost]
+      · intro c hc
+        simp only [List.mem_append] at hc
+        rcases hc with (hc | (hc | hc) | hc) | hc
+        · revert c; decide
+        · revert c; decide
+        · revert c; decide
+        · exact digits_ascii rp hd c hc
+        · revert c; decide
+    rw [hasc]
+    unfold probeTarget
+    have hp : hasPrefix (b!"https://probe.test" ++ (58 :: rp ++ probeURI)) b!"https://probe.test" = true := by
+      unfold hasPrefix; rw [List.isPrefixOf_iff_prefix]; exact List.prefix_append _ _
+    simp only [hp, Bool.not_true, Bool.false_eq_true, if_false, List.drop_left]
+    have h1 : ((58 :: rp ++ probeURI) == probeURI) = false := by
+      rw [beq_eq_false_iff_ne]; intro h; simp [probeURI] at h
+    have h2 : hasPrefix (58 :: rp ++ probeURI) b!":" = true := by simp [hasPrefix, List.isPrefixOf]
+    have h3 : hasSuffix (58 :: rp ++ probeURI) probeURI = true := by
+      unfold hasSuffix; rw [List.isSuffixOf_iff_suffix]; exact ⟨58 :: rp, by simp⟩
+    have h4 : ((58 :: rp ++ probeURI).drop 1).take ((58 :: rp ++ probeURI).length - 1 - probeURI.length) = rp := by
+      simp
+    simp only [h1, Bool.false_eq_true, if_false, h2, h3, Bool.and_self, if_true, h4, hd, he, Bool.not_false]
+
 end Casket.AutoHTTPS
